@@ -210,3 +210,60 @@ func (p CPath) boolFacts() []BoolFact {
 	}
 	return out
 }
+
+// storedBefore: the value last stored, on the path, into the location whose
+// access path (continued through spliced helpers) satisfies match, before the
+// occurrence at index at of p.OccsPos(). The value is resolved as of the store.
+// ok=false when nothing on the path stored there before that point.
+func (p CPath) storedBefore(occs []OccPos, at int, match func(AP) bool) (ssa.Value, int, bool) {
+	for i := at - 1; i >= 0; i-- {
+		st, ok := occs[i].In.(*ssa.Store)
+		if !ok {
+			continue
+		}
+		pk := p.Upto(occs[i].Seg)
+		if !match(pk.APIn(occs[i].Ctx, st.Addr)) {
+			continue
+		}
+		return pk.ResolveIn(occs[i].Ctx, st.Val), i, true
+	}
+	return nil, -1, false
+}
+
+// forward resolves v as of occurrence index at and, when the result is a load
+// from a location that was stored to earlier on the path, continues with the
+// stored value (store-to-load forwarding along the path, a few levels).
+func (p CPath) forward(occs []OccPos, at int, ctx *FCtx, v ssa.Value) ssa.Value {
+	seg := 0
+	if at >= 0 && at < len(occs) {
+		seg = occs[at].Seg
+	}
+	for i := 0; i < 6; i++ {
+		v = p.Upto(seg).ResolveIn(ctx, v)
+		ld, ok := stripConv(v).(*ssa.UnOp)
+		if !ok || ld.Op != token.MUL {
+			return v
+		}
+		// position of this load on the path (latest before at)
+		pos := -1
+		for j := at; j >= 0 && j < len(occs); j-- {
+			if occs[j].In == ssa.Instruction(ld) {
+				pos = j
+				break
+			}
+		}
+		if pos < 0 {
+			return v
+		}
+		want := p.Upto(occs[pos].Seg).APIn(occs[pos].Ctx, ld.X)
+		sv, si, ok := p.storedBefore(occs, pos, func(a AP) bool {
+			return a.Root == want.Root && a.SelString() == want.SelString()
+		})
+		if !ok {
+			return v
+		}
+		v, at, ctx = sv, si, nil
+		seg = occs[si].Seg
+	}
+	return v
+}
